@@ -143,9 +143,13 @@ def _mask_shifted(st, sh, m):
     a = c.bit_length()
     nb = sh.pay.nbits
     bits = []
+    # bits above the payload's top bit are zero; when the whole field provably lies inside
+    # (k + a <= nb, i.e. offset >= 0) the guard is dropped so that the atoms are plain payload bits
+    inside = entails(st.pc, sh.k + a <= nb)
     for j in range(a):
         pos = z3.simplify(nb - 1 - sh.k - j)
-        bits.append(z3.And(sh.k + j < nb, sh.pay.bit_msb(pos)))
+        b = sh.pay.bit_msb(pos)
+        bits.append(b if inside else z3.And(sh.k + j < nb, b))
     return SBits(bits)
 
 
